@@ -411,6 +411,9 @@ class Eval:
         r = self.eval(n["r"])
         if op in ("Lt", "Le", "Gt", "Ge", "Eq", "Ne", "And", "Or"):
             return AV(Fr(0), Fr(1), ty="bool")
+        if op == "Mul" and l.ty not in INT_RANGES and pretty(strip(n["l"])) == pretty(strip(n["r"])):
+            # x * x: a square (both operands are the same expression, evaluated without side effects)
+            return self.fmath("powi", l, [AV(Fr(2), Fr(2), ty="i32")], n)
         return self.arith(op, l, r, n)
 
     def arith(self, op, l, r, n):
